@@ -92,3 +92,23 @@ def c12(F, R, tier):
 def c15(F, R, tier):
     import c15 as mod
     mod.check(F, R)
+
+
+@prop("C05",
+      technique="static: enum-to-enum conversion tables located by type (match tables and variant-blind closures), who-may-construct for verdict variants",
+      explanation="Decides (T-VERDICT) every match that converts a back-end error enum having an Infeasible/Unbounded/limit variant (microlp::Error, good_lp::ResolutionError, SimplexError, CanonicalTransformError) into SolverError keeps the verdict and never turns a non-verdict into one; (ENUM-MAP) no variant-blind closure converts such an enum into a single SolverError; Clarabel DualInfeasible/AlmostDualInfeasible -> Unbounded; infinite/NaN microlp objective -> Unbounded/Infeasible; (W-PRODUCER) the only producer of CanonicalTransformError::Infesible is guarded by float_ne(value, 0.0) and the only producer of SimplexError::Unbounded by the absence of a leaving row. NOT decided: that optima and verdicts are numerically right.",
+      assumptions=["variant lists of microlp::Error and good_lp::ResolutionError as in the vendored sources"])
+def c05(F, R, tier):
+    import c05 as mod
+    mod.check(F, R)
+
+
+@prop("C04",
+      technique="static: mapping tables located by scrutinee type, positional data-flow of bounds, adapter white-list on column iteration, data-flow of activities/offset on typed HIR",
+      explanation="Decides (T-MAP) Comparison->microlp ComparisonOp / good_lp leq,geq,eq with strict comparisons rejected; OptimizationType->direction; VariableType->column constructor with bounds in (min,max) order for microlp (2 sites) and good_lp, and the VariableType->MILPValue read-back kinds; (H-COLUMNS) one unconditional column push per variable, no reordering/filtering adapter in the three bridge functions, one Assignment per variable; (D-ACTIVITY) row activities are computed on `lp` from the returned solution's values; (D-OFFSET) every reported objective includes objective_offset (directly or via calc_objective), the tableau flips the value and not the offset; (S-SPLIT reader) the tableau read-back drops exactly $sl_/$su_/$a_ and rebuilds x = $p x - $m x; (EARLY-OK) no public solver entry returns Ok without a back-end call unless it consulted the rows. NOT decided: that the numbers returned by microlp/Clarabel/the tableau satisfy the rows within 1e-6 (numeric, in dependencies); `value as i32` relies on microlp's documented exact rounding of integer columns.",
+      assumptions=["microlp::Solution::var_value returns exactly rounded integers for integer columns (documented)"])
+def c04(F, R, tier):
+    import c04 as mod
+    mod.check(F, R)
+    import c15
+    c15.check(F, R)
